@@ -68,6 +68,25 @@ register("C27", module="cachechecks", fn="case_c27", replay="replay_c27", binari
          assumptions=["the algebraic core (max-merge) is a pure function; what is simulated is only the order in which tasks pass through the mutex-protected aggregate"],
          components={"real": ["core.BuildState.LogTestResult", "core.TestCoverage.Aggregate / MergeCoverageLines"], "stub": ["goroutine scheduling (seeded)", "sync.Mutex (simulator-aware)"]})
 
+HIST_ASSUME = ["the reference is the literal one in the property: a from-scratch build of the same tree in a fresh directory with an empty plz-out and no cache (memoised per tree digest), under the deterministic `first` schedule",
+               "build commands come from a deterministic DSL whose outputs contain the names, kinds, exec bits and contents of all inputs, so a stale dependant is visible in its bytes",
+               "only outputs of requested targets (as listed by plz itself) are compared"]
+
+register("C01", module="histchecks", fn="case_c01", replay="replay_c01", binaries=("simplz",),
+         cases={"quick": 32, "thorough": 1500}, budget={"quick": 280, "thorough": 3300}, level="exploration",
+         rule="history = generated repository (genrules with file and directory outputs, filegroups, text_files, optional subincluded build_defs; hash function and xattrs drawn per history) + 2-6 steps from: content edit, command change, add/remove source, rename an output, rename inside a directory output, env change incl. boundary shift, binary toggle, add/remove dependency, text_file change, output-preserving command change, revert to an earlier state, rm -rf plz-out, rewrite sources with identical bytes; each step followed by `plz build <request>` as a fresh simulated process under its own seeded schedule; evaluations = simulated invocations incl. reference builds; distinct_nontrivial = histories with >=2 steps",
+         assumptions=HIST_ASSUME, components={"real": REAL_WHOLE, "stub": STUB_WHOLE})
+
+register("C02", module="histchecks", fn="case_c02", replay="replay_c02", binaries=("simplz",),
+         cases={"quick": 32, "thorough": 1500}, budget={"quick": 280, "thorough": 3300}, level="exploration",
+         rule="as C01 with a directory cache shared by the whole history (dircompress on/off, cache workers 0/2) and 3-7 steps biased towards rm -rf plz-out and reverts to earlier states, so that artifacts are restored from entries stored under other states; oracle: after every build the requested outputs equal the from-scratch no-cache build of the CURRENT tree",
+         assumptions=HIST_ASSUME, components={"real": REAL_WHOLE, "stub": STUB_WHOLE})
+
+register("C03", module="histchecks", fn="case_c03", replay="replay_c03", binaries=("simplz",),
+         cases={"quick": 28, "thorough": 1200}, budget={"quick": 280, "thorough": 3300}, level="exploration",
+         rule="as C01; after every build an immediate second build of the unchanged tree must run zero commands, and every command that ran in an incremental build must belong to a target whose rendered definition, configuration, source bytes or dependency output contents (taken from the reference build of that state) changed since its command last ran; commands are observed through an action log written by every command outside the repository",
+         assumptions=HIST_ASSUME + ["must-run is not asserted here (C01 decides that through outputs)"], components={"real": REAL_WHOLE, "stub": STUB_WHOLE})
+
 
 def cmd_check(pid, tier):
     import framework
